@@ -32,7 +32,7 @@ func goBodyTable(c *Ctx, pkgPath string, rule string) ([]layout.Ev, bool) {
 	p := c.Node()
 	pk := must(p.ByPath[pkgPath], "package "+pkgPath)
 	fd := must(layout.FindFunc(pk, "VAA", "serializeBody"), "vaa.(*VAA).serializeBody")
-	evs := layout.Extract(pk, fd)
+	evs := writeEvents(p, pk, "VAA", "serializeBody")
 	recv := "v"
 	if fd.Recv != nil && len(fd.Recv.List[0].Names) == 1 {
 		recv = fd.Recv.List[0].Names[0].Name
@@ -288,6 +288,10 @@ func c04reads(c *Ctx) { c04readsOn(c, c.Node(), "C04.reads") }
 func c04readsOn(c *Ctx, p *load.Program, rule string) {
 	R := c.R
 	allowed := map[string]bool{"geth/crypto.Keccak256": true, "geth/common.BytesToHash": true,
+		// other ways of laying bytes out (pure with respect to the VAA): slice writers of encoding/binary and builtins
+		"len": true, "cap": true, "copy": true, "append": true,
+		"(encoding/binary.bigEndian).PutUint16": true, "(encoding/binary.bigEndian).PutUint32": true, "(encoding/binary.bigEndian).PutUint64": true,
+		"(encoding/binary.bigEndian).AppendUint16": true, "(encoding/binary.bigEndian).AppendUint32": true, "(encoding/binary.bigEndian).AppendUint64": true,
 		"N/vaa.MustWrite": true, "(*bytes.Buffer).Write": true, "(*bytes.Buffer).Bytes": true, "(time.Time).Unix": true,
 		"geth/crypto.Keccak256Hash": true, "(geth/common.Hash).Bytes": true, "(*N/vaa.VAA).serializeBody": true, "(*N/vaa.VAA).signingBody": true,
 	}
